@@ -2826,16 +2826,12 @@ func (db *DB) Import(ctx context.Context, r io.Reader) error {
 	}
 	defer guard.Unlock()
 
-	// Invalidate journal, if one exists.
-	if err := db.invalidateJournal(JournalModePersist); err != nil {
-		return fmt.Errorf("invalidate journal: %w", err)
-	}
-
-	// Truncate WAL, if it exists.
-	if _, err := db.os.Stat("IMPORT:WAL", db.WALPath()); err == nil {
-		if err := db.TruncateWAL(ctx, 0); err != nil {
-			return fmt.Errorf("truncate wal: %w", err)
-		}
+	// Roll back the journal & checkpoint the WAL, if they exist, so that the
+	// database file matches the current position before the import is written.
+	// Discarding them instead would lose committed WAL frames (or leave a
+	// partially written transaction) if the import is interrupted.
+	if err := db.recover(ctx); err != nil {
+		return fmt.Errorf("recover: %w", err)
 	}
 
 	pos, err := db.importToLTX(ctx, r)
